@@ -95,7 +95,72 @@ fn exercise(z: &Zoo) -> Result<u64, String> {
     let mut t2 = NullIterTarget(NullTarget { bb: Rectangle::new(Point::zero(), Size::new(320, 240)), n: 0, sum: 0 });
     z.draw(&mut t2).unwrap();
     steps += t2.0.n;
+    steps += adapters(z, &bb)?;
+    steps += rejections(z);
     Ok(steps)
+}
+
+/// adapter stacks: the drawable and the three native fill calls through clipped / cropped / translated /
+/// colour-converted views whose areas are degenerate, partly outside, or larger than the parent
+fn adapters(z: &Zoo, bb: &Rectangle) -> Result<u64, String> {
+    use embedded_graphics::draw_target::DrawTargetExt;
+    let mut n = 0u64;
+    let areas = [
+        Rectangle::new(Point::new(5, 5), Size::new(100, 0)),
+        Rectangle::new(Point::new(5, 5), Size::new(0, 100)),
+        Rectangle::new(Point::new(-10, -10), Size::new(50, 50)),
+        Rectangle::zero(),
+        Rectangle::new(Point::new(1000, 1000), Size::new(1024, 1024)),
+        Rectangle::new(Point::new(-1024, -1024), Size::new(1024, 1)),
+        bb.offset(-1),
+        Rectangle::new(bb.top_left + Point::new(1, 1), Size::new(bb.size.width / 2, bb.size.height)),
+        Rectangle::new(bb.top_left - Point::new(3, 0), Size::new(bb.size.width + 7, 0)),
+    ];
+    for (k, area) in areas.iter().enumerate() {
+        let mut t = NullTarget { bb: Rectangle::new(Point::new(-64, -64), Size::new(384, 304)), n: 0, sum: 0 };
+        z.draw(&mut t.clipped(area)).unwrap();
+        z.draw(&mut t.cropped(area)).unwrap();
+        z.draw(&mut t.translated(area.top_left)).unwrap();
+        z.draw(&mut t.cropped(area).clipped(&areas[(k + 2) % areas.len()]).translated(Point::new(-3, 2))).unwrap();
+        // the native calls themselves, with a fill area that is not the view's area
+        let other = &areas[(k + 1) % areas.len()];
+        let colors = core::iter::repeat(Rgb565::new(1, 2, 3));
+        t.clipped(area).fill_contiguous(other, colors.clone()).unwrap();
+        t.cropped(area).fill_contiguous(other, colors.clone().take(17)).unwrap();
+        t.clipped(area).fill_contiguous(bb, colors.take(100_000)).unwrap();
+        t.clipped(area).fill_solid(other, Rgb565::new(3, 2, 1)).unwrap();
+        t.cropped(area).clear(Rgb565::new(3, 2, 1)).unwrap();
+        if t.n > 400_000_000 {
+            return Err("adapter drawing exceeded the step budget".into());
+        }
+        n += t.n;
+    }
+    Ok(n)
+}
+
+/// out-of-range requests are rejected without a panic (images: pixel(), sub images outside the image)
+fn rejections(z: &Zoo) -> u64 {
+    use embedded_graphics::image::{GetPixel, ImageDrawable, ImageDrawableExt, ImageRaw};
+    let mut n = 0u64;
+    if let Geo::Image { size, data, .. } = &z.geo {
+        let raw: ImageRaw<Rgb565> = ImageRaw::new(data, *size).unwrap();
+        let (w, h) = (size.width as i32, size.height as i32);
+        for p in [Point::new(-1, 0), Point::new(0, -1), Point::new(w, 0), Point::new(0, h), Point::new(w - 1, h - 1), Point::new(i32::MAX, i32::MAX), Point::new(i32::MIN, i32::MIN), Point::new(1024, -1024)] {
+            let inside = p.x >= 0 && p.y >= 0 && p.x < w && p.y < h;
+            let got = raw.pixel(p);
+            if got.is_some() != inside {
+                panic!("ImageRaw::pixel({:?}) on {}x{}: is_some = {}", p, w, h, got.is_some());
+            }
+            n += 1;
+        }
+        let mut t = NullTarget { bb: Rectangle::new(Point::zero(), Size::new(64, 64)), n: 0, sum: 0 };
+        for area in [Rectangle::new(Point::new(w, h), Size::new(3, 3)), Rectangle::new(Point::new(-5, -5), Size::new(3, 3)), Rectangle::new(Point::new(-1, -1), Size::new(1024, 1024)), Rectangle::new(Point::new(1, 1), Size::new(0, 7))] {
+            raw.sub_image(&area).draw(&mut t).unwrap();
+            raw.sub_image(&area).sub_image(&Rectangle::new(Point::new(1, -1), Size::new(2, 1024))).draw(&mut t).unwrap();
+        }
+        n += t.n;
+    }
+    n
 }
 
 fn count_points(z: &Zoo) -> u64 {
